@@ -22,9 +22,12 @@ EXPLANATION = (
     "(conversion safety). C10.RENDER: for every format class num_to_str is path-enumerated; the output language of each returned "
     "f-string is derived from its field specifications and interval facts (divmod / // / % / floor bounds carried per path), that of the "
     "printf branch from a model of CPython %-formatting over the format grammar %[-+ 0#]*width(.prec){d,f} (576 formats), including "
-    "whether the result is stripped; each must be included in L(message validator)."
+    "whether the result is stripped; each must be included in L(message validator). C10.SIGN / C10.CARRY decide the structural halves of two "
+    "numeric clauses: on every feasible returning path of str_to_num the value is sign x (whole + minutes/60 + seconds/3600) as a linear form "
+    "in the captured fields (sign tests on linear forms are checked for feasibility, all magnitudes being >= 0); num_to_str renders a separate "
+    "leading sign and computes every field from abs(n), and every field after a ':' is an integer bounded by 59 derived from one rounded total."
 )
-NOT_DECIDED = "every numeric clause: that rendered text denotes the value within the format's resolution, the sign convention (-0:30 is -0.5), carries at 59.5, and numeric inverse-ness - statements about real arithmetic, out of reach for this family."
+NOT_DECIDED = "the numeric tolerance clauses: that rendered text denotes the value within the format's resolution and parses back within it (real arithmetic, out of reach for this family); of the sign convention and the carry only the structural halves above are decided."
 ASSUMPTIONS = [
     "model of CPython %-formatting and f-string field formatting for finite ints/floats (padding, sign flags, precision)",
     "int()/float() accept exactly Python's numeric literal syntax (underscores and exponents included, inf/nan ignored)",
